@@ -128,11 +128,23 @@ pub fn node_set() -> impl Strategy<Value = Vec<(i64, Fl)>> {
     )
         .prop_map(|(start, steps, shuffle)| {
             let mut t = start;
-            let mut nodes = Vec::new();
+            let mut nodes: Vec<(i64, Fl)> = Vec::new();
+            // flat sections: in a fifth of the curves neighbouring nodes repeat a value exactly (a
+            // zero-forward period, a flat value curve), and some curves are all ones (the starting
+            // point of a calibration) - independent draws would never be equal
+            let flat = (shuffle >> 12) % 5 == 0;
+            let all_ones = (shuffle >> 12) % 25 == 5;
             for (i, (dt, v)) in steps.into_iter().enumerate() {
                 if i > 0 {
                     t += dt;
                 }
+                let v = if all_ones {
+                    Fl(1.0)
+                } else if flat && i > 0 && (shuffle >> (16 + i % 12)) & 1 == 1 {
+                    nodes[i - 1].1
+                } else {
+                    v
+                };
                 nodes.push((t, v));
             }
             // deterministic shuffle of the supply order from the drawn bits
@@ -276,6 +288,7 @@ impl Property for C11 {
                 v.label_if(times.windows(2).any(|w| (w[1] - w[0]) % 86400 != 0), "spacing:sub-day");
                 let supplied_sorted = nodes.iter().map(|x| x.0).collect::<Vec<_>>() == times;
                 v.label(if supplied_sorted { "supply:sorted" } else { "supply:shuffled" });
+                v.label_if(values.windows(2).any(|w| w[0] == w[1]), "values:flat-section");
 
                 // dual node values are tagged per node date so that both supply orders describe the same curve
                 let tag = |t: i64| vec![format!("n{}", times.iter().position(|u| *u == t).unwrap())];
@@ -376,7 +389,7 @@ impl Property for C11 {
     }
 
     fn rule(&self) -> String {
-        "random (rule, node set, query dates): 2-12 nodes with distinct timestamps, spacings from 1 second to ~6 years (mostly whole days), positive values (DF-like and general), supplied shuffled or sorted; 1-7 queries per curve drawn before the first node, after the last, exactly on nodes and 1 second either side, at interval midpoints and uniformly inside intervals. Every curve is built three ways (generic constructor with shuffled nodes, with sorted nodes - node values given as floats, first-order or second-order numbers tagged per node date - and the Python-facing constructor through the hook); the two generic curves must agree bit-for-bit and compare equal, the hook curve bit-for-bit for float values and to 1e-12 otherwise. Oracle: linear-scan interval choice and the closed form of each rule (1e-12; flat rules exact), node dates return node values, betweenness for linear/log-linear. Plus index_left on random strictly increasing float lists with probes at, between, just above and outside the entries. Non-trivial: >= 3 nodes and a query strictly inside an interior interval or exactly on an interior node (curves); lists of >= 3 entries (index_left).".into()
+        "random (rule, node set, query dates): 2-12 nodes with distinct timestamps, spacings from 1 second to ~6 years (mostly whole days), positive values (DF-like and general; a fifth of the curves repeat a value exactly on neighbouring nodes, some are all ones), supplied shuffled or sorted; 1-7 queries per curve drawn before the first node, after the last, exactly on nodes and 1 second either side, at interval midpoints and uniformly inside intervals. Every curve is built three ways (generic constructor with shuffled nodes, with sorted nodes - node values given as floats, first-order or second-order numbers tagged per node date - and the Python-facing constructor through the hook); the two generic curves must agree bit-for-bit and compare equal, the hook curve bit-for-bit for float values and to 1e-12 otherwise. Oracle: linear-scan interval choice and the closed form of each rule (1e-12; flat rules exact), node dates return node values, betweenness for linear/log-linear. Plus index_left on random strictly increasing float lists with probes at, between, just above and outside the entries. Non-trivial: >= 3 nodes and a query strictly inside an interior interval or exactly on an interior node (curves); lists of >= 3 entries (index_left).".into()
     }
 
     fn floors(&self, tier: Tier) -> Vec<Floor> {
@@ -392,6 +405,7 @@ impl Property for C11 {
             Floor { label: "kind:index_left", min: n / 10 },
             Floor { label: "rule:linear_zero_rate", min: n / 10 },
             Floor { label: "values:first-order", min: n / 10 },
+            Floor { label: "values:flat-section", min: n / 20 },
             Floor { label: "values:second-order", min: n / 10 },
         ]
     }
